@@ -185,6 +185,13 @@ impl Prop for InputForms {
             if let Some(i) = bits_equal(&parsed_on, &untimed_on) {
                 fail!("form-differs", "with alignment on and no time stamps, Vec<Label> gives a different waveform than &[String] (first difference at sample {}, lengths {} vs {}, speed {})", i, parsed_on.len(), untimed_on.len(), c.speed);
             }
+            // un-stamped labels carry no alignment: with the flag on every label falls back to its
+            // model duration, which at speed 1 is exactly what the flag-off request renders
+            if c.speed == 1.0 {
+                if let Some(i) = bits_equal(&untimed_on, &reference) {
+                    fail!("alignment-without-stamps", "un-stamped lines at speed 1: with the alignment flag on the waveform differs from the flag-off one (first difference at sample {}, lengths {} vs {})", i, untimed_on.len(), reference.len());
+                }
+            }
             let mut tb = timed.clone();
             for p in pos.iter().rev() {
                 tb.insert((*p).min(tb.len()), String::new());
